@@ -179,12 +179,12 @@ theorem J.exchange {cfg : Cfg} {rep : Bytes} {etag : Option Bytes} {code : Nat} 
     subst hrep hetag hcd
     have hcur0 := hcur
     rw [nextRequest_eq hinv] at hcur
-    by_cases hf : cfg.payload.length > threshold cfg st.szx
+    by_cases hf : fragmented cfg st.szx = true
     · -- a block of a fragmented transfer
       have hfacts := (b1_cur_facts hinv hcur0).2
       have hnextinv := fun hsm t => B1Inv.next hinv hcur0 hsm t
-      simp only [hf, ↓reduceIte, Option.some.injEq] at hcur
-      have hin := hinv.inside hf
+      simp only [hf, Bool.false_eq_true, ↓reduceIte, Option.some.injEq] at hcur
+      have hin := inside_off hinv hf
       obtain ⟨hbpos, _, _, hblen⟩ := blk_spec (mp := cfg.maxPayload) hinv.szx_le hinv.bert
       have hb2 : cur0.block2 = hintOpt cfg := by rw [← hcur]
       have hhandle : s.handle cur0 c = s.body cur0 c := handle_of_hint cfg s c hb2
@@ -264,7 +264,7 @@ theorem J.exchange {cfg : Cfg} {rep : Bytes} {etag : Option Bytes} {code : Nat} 
         rw [hmu]
         omega
     · -- the whole payload in one request
-      simp only [hf, ↓reduceIte, Option.some.injEq] at hcur
+      simp only [hf, Bool.false_eq_true, ↓reduceIte, Option.some.injEq] at hcur
       have hb2 : cur0.block2 = hintOpt cfg := by rw [← hcur]
       have hhandle : s.handle cur0 c = s.respond cfg.payload none cur0.block2 c := by
         rw [handle_of_hint cfg s c hb2, ← hcur]; simp [Srv.body]
@@ -434,7 +434,7 @@ theorem J.run_done {cfg : Cfg} {rep : Bytes} {etag : Option Bytes} {code : Nat} 
 
 /-- the start of a transfer satisfies the invariant -/
 theorem J.start {cfg : Cfg} (h6 : cfg.Ok) (rep : Bytes) (etag : Option Bytes) (code : Nat) :
-    ∃ cur, start cfg = .b1 { szx := cfg.szx0, cursor := 0 } cur ∧
+    ∃ cur, start cfg = .b1 { szx := startSzx cfg, cursor := 0 } cur ∧
       J cfg rep etag code (start cfg) (Srv.init rep etag code) := by
   obtain ⟨cur, h1, h2⟩ := enterB1_of_inv (B1Inv.start h6)
   refine ⟨cur, h2, ?_⟩
